@@ -16,6 +16,7 @@ pub mod forkrun;
 pub mod iter;
 pub mod probe;
 pub mod reg;
+pub mod sysspy;
 pub mod vsched;
 
 use driver::PropDef;
